@@ -18,6 +18,8 @@ class VClock:
         # fresh singleton task manager
         task._task_manager = None
         task._unscheduled_tasks = []
+        task._Trigger = None
+        task.TaskManager._singleton_instance = None
         self.tm = task.TaskManager()
         core.deferredFns = []
         self.task, self.core = task, core
